@@ -89,12 +89,15 @@ def compare_object(ctx, kind, data, text, seqs, code, prevs, lens, frames, label
         models = {"repaired": [canon_model(r) for r in drive(ctx, f"rplv repaired {hexs(data)}", evs)]}
         if not all(c == mm for c, mm in zip(code_s, models["repaired"])):
             models["asIs"] = [canon_model(r) for r in drive(ctx, f"rplv asIs {hexs(data)}", evs)]
-        spec = drive(ctx, f"lspecp {lst(lens)}", evs)
+        # per-frame-slack position specification lmpStagesPosS: judged on EVERY schedule (no cut guard)
+        sl = slack if isinstance(slack, list) else [1] * len(lens)
+        spec = drive(ctx, "lspecps " + lst([x for pr in zip(lens, sl) for x in pr]), evs)
+        spec_old = drive(ctx, f"lspecp {lst(lens)}", evs)
     agreeing = [v for v, m in models.items() if all(c == mm for c, mm in zip(code_s, m))]
     ctx.count(len(seqs), branch=f"{kind}:object-positions-vs-rpRun")
     if agreeing:
         ctx.hit(f"{kind}:object-agrees-with-model={agreeing[0]}")
-    else:
+    if "repaired" not in agreeing:     # the code as it is now is the variant `repaired`; `asIs` is a record only
         v0 = "repaired"
         for sq, c, m in zip(seqs, code_s, models[v0]):
             if c != m:
@@ -103,9 +106,12 @@ def compare_object(ctx, kind, data, text, seqs, code, prevs, lens, frames, label
                 break
     # the position spec (right-hand side of rp_xyz_exact_pos / rp_lmp_exact_pos) against the implementation
     exp_fr = ([fl_rows(f) for f in frames] if kind == "xyz" else [(fl_rows(c), fl_rows(b)) for c, b in frames])
-    for sq, st, sp in zip(seqs, code, spec):
-        if slack and any(b - slack <= c <= b - 2 for c in sq for b in bounds[1:]):
-            continue     # outside the guard `tbFree` of rp_lmp_exact_pos_trailing_partial
+    jobs = list(zip(seqs, code, spec))
+    if kind != "xyz":
+        # the one-byte-lag specification lmpStagesPos (rp_lmp_exact_pos[_trailing_partial]) where its guard holds
+        jobs += [(sq, st, sp) for sq, st, sp in zip(seqs, code, spec_old)
+                 if not any(bounds[i + 1] - sl[i] <= c <= bounds[i + 1] - 2 for c in sq for i in range(len(sl)))]
+    for sq, st, sp in jobs:
         want = []
         for s in sp.split(" | "):
             pos, _, idx = s.strip().partition(":")
@@ -229,8 +235,9 @@ def check_states(ctx, ep, tmpdir, pool, helpers):
         if code != m2:
             agree[kind][1] = False
     for kind in ("xyz", "lmp"):
-        if not any(agree[kind]) and kind in first:
-            ctx.disagree({"fn": f"{kind} reader object on arbitrary file states vs rpRun (neither variant)",
+        if not agree[kind][0] and kind in first:      # the code as it is now = variant repaired
+            ctx.disagree({"fn": f"{kind} reader object on arbitrary file states vs rpRun (variant repaired"
+                          + ("; agrees with the recorded variant asIs)" if agree[kind][1] else ")"),
                           "states": [None if x is None else x.decode("utf-8", "replace") for x in first[kind][0]]},
                          first[kind][1], first[kind][2])
 
